@@ -44,6 +44,7 @@ type Report struct {
 type edit struct {
 	off  int
 	text string
+	del  int // bytes of the source removed at off (after text is written)
 }
 
 func apply(src []byte, edits []edit) []byte {
@@ -53,7 +54,7 @@ func apply(src []byte, edits []edit) []byte {
 	for _, e := range edits {
 		out = append(out, src[last:e.off]...)
 		out = append(out, e.text...)
-		last = e.off
+		last = e.off + e.del
 	}
 	return append(out, src[last:]...)
 }
@@ -213,6 +214,7 @@ func Library(dir string) (*Report, error) {
 		}
 		curFunc := ""
 		inOnce := 0
+		var bracketed [][2]token.Pos // statements that already run detached from the token, and select communications
 		var visitBlock func(list []ast.Stmt, tag string)
 		var walk func(n ast.Node)
 		visitBlock = func(list []ast.Stmt, tag string) {
@@ -228,21 +230,22 @@ func Library(dir string) (*Report, error) {
 				next++
 				pos := fset.Position(s.Pos())
 				rep.Sites = append(rep.Sites, Site{ID: id, File: name, Line: pos.Line, Func: curFunc, Tag: t})
-				edits = append(edits, edit{off(s.Pos()), "zzsimrt.Yield(" + strconv.Itoa(id) + "); "})
+				edits = append(edits, edit{off: off(s.Pos()), text: "zzsimrt.Yield(" + strconv.Itoa(id) + "); "})
 				// A statement that may block in a channel operation hands the token back for its
 				// duration (the operation itself runs for real) and queues for the token afterwards.
 				switch x := s.(type) {
 				case *ast.ExprStmt, *ast.SendStmt, *ast.AssignStmt, *ast.DeclStmt:
 					if hasChanOp(s) {
-						edits = append(edits, edit{off(s.Pos()), "zzsimrt.BeginBlocking(); "})
-						edits = append(edits, edit{off(s.End()), "; zzsimrt.EndBlocking()"})
+						bracketed = append(bracketed, [2]token.Pos{s.Pos(), s.End()})
+						edits = append(edits, edit{off: off(s.Pos()), text: "zzsimrt.BeginBlocking(); "})
+						edits = append(edits, edit{off: off(s.End()), text: "; zzsimrt.EndBlocking()"})
 						rep.ChanBrackets++
 					}
 				case *ast.SelectStmt:
-					edits = append(edits, edit{off(s.Pos()), "zzsimrt.BeginBlocking(); "})
+					edits = append(edits, edit{off: off(s.Pos()), text: "zzsimrt.BeginBlocking(); "})
 					for _, cl := range x.Body.List {
 						if cc, ok := cl.(*ast.CommClause); ok {
-							edits = append(edits, edit{off(cc.Colon) + 1, " zzsimrt.EndBlocking();"})
+							edits = append(edits, edit{off: off(cc.Colon) + 1, text: " zzsimrt.EndBlocking();"})
 						}
 					}
 					rep.ChanBrackets++
@@ -355,12 +358,71 @@ func Library(dir string) (*Report, error) {
 				walk(x)
 			}
 		}
+		// A receive that is part of a larger statement (return <-done, if v := <-c; ..., f(<-c)) would block
+		// while its task holds the token: it becomes zzsimrt.Await(c), which hands the token back for the wait.
+		// (Await is generic: the file then needs the go1.18 language, which a build line grants per file; a
+		// file that has build constraints of its own is left alone and the construct reported.)
+		constrained := false
+		for _, cg := range f.Comments {
+			if cg.Pos() < f.Package {
+				for _, cm := range cg.List {
+					if strings.HasPrefix(cm.Text, "//go:build") || strings.HasPrefix(cm.Text, "// +build") {
+						constrained = true
+					}
+				}
+			}
+		}
+		awaits := 0
+		var stack []ast.Node
+		ast.Inspect(f, func(c ast.Node) bool {
+			if c == nil {
+				stack = stack[:len(stack)-1]
+				return true
+			}
+			stack = append(stack, c)
+			if cc, ok := c.(*ast.CommClause); ok && cc.Comm != nil {
+				bracketed = append(bracketed, [2]token.Pos{cc.Comm.Pos(), cc.Comm.End()})
+			}
+			u, ok := c.(*ast.UnaryExpr)
+			if !ok || u.Op != token.ARROW {
+				return true
+			}
+			for _, r := range bracketed {
+				if u.Pos() >= r[0] && u.End() <= r[1] {
+					return true
+				}
+			}
+			if constrained {
+				rep.Unmodelled = append(rep.Unmodelled, fmt.Sprintf("%s:%d receive inside a larger statement (file has build constraints: not rewritten)", name, fset.Position(u.Pos()).Line))
+				return true
+			}
+			awaits++
+			fn := "zzsimrt.Await("
+			if len(stack) >= 2 {
+				switch par := stack[len(stack)-2].(type) {
+				case *ast.AssignStmt:
+					if len(par.Lhs) == 2 && len(par.Rhs) == 1 && par.Rhs[0] == ast.Expr(u) {
+						fn = "zzsimrt.AwaitOK("
+					}
+				case *ast.ValueSpec:
+					if len(par.Names) == 2 && len(par.Values) == 1 && par.Values[0] == ast.Expr(u) {
+						fn = "zzsimrt.AwaitOK("
+					}
+				}
+			}
+			edits = append(edits, edit{off: off(u.OpPos), text: fn, del: 2}, edit{off: off(u.X.End()), text: ")"})
+			rep.ChanBrackets++
+			return true
+		})
+		if awaits > 0 {
+			edits = append(edits, edit{off: 0, text: "//go:build go1.18\n\n//line " + filepath.Base(name) + ":1\n"})
+		}
 		if len(edits) == 0 && !contains(rep.SyncFiles, name) {
 			continue
 		}
 		if len(edits) > 0 {
 			// import on the package-clause line keeps every line number unchanged
-			edits = append(edits, edit{off(f.Name.End()), `; import zzsimrt "` + rtPath + `"`})
+			edits = append(edits, edit{off: off(f.Name.End()), text: `; import zzsimrt "` + rtPath + `"`})
 		}
 		if err := os.WriteFile(path, apply(src, edits), 0644); err != nil {
 			return nil, err
@@ -411,6 +473,7 @@ func writeRuntime(dir, rtPath string) error {
 		"tmpl/zzsimrt.go.txt":        "zzsimrt/zzsimrt.go",
 		"tmpl/sched.go.txt":          "zzsimrt/sched.go",
 		"tmpl/keys.go.txt":           "zzsimrt/keys.go",
+		"tmpl/await.go.txt":          "zzsimrt/await.go",
 		"tmpl/simsync.go.txt":        "zzsimrt/simsync/simsync.go",
 		"tmpl/simsync121.go.txt":     "zzsimrt/simsync/simsync121.go",
 		"tmpl/simsync_race.go.txt":   "zzsimrt/simsync/race.go",
